@@ -29,6 +29,7 @@ func runC04(c *an.Ctx) string {
 	r048Loops(c)
 	r049MustValidate(c)
 	r041HandlerGate(c)
+	r171Vocabulary(c)     // shared with C17 (rule id R17.1): the generated validator names the format the design declared
 	r172ValidateFormat(c) // R04.10: runtime format validators (rule ids R17.2/R17.3)
 	aliasFlattening(c, "R04.12")
 	errAccumulatorRule(c, "R04.13", "http/codegen/templates/partial/request_elements.go.tpl", "http/codegen/templates/request_decoder.go.tpl", "http/codegen/templates/response_decoder.go.tpl", "http/codegen/templates/partial/single_response.go.tpl")
